@@ -127,10 +127,8 @@ MInit ==
 InU(u) == u \in URLs
 
 \* ---- clause evaluation at an event (0 = fine); clause numbers are mapped to properties by the driver
-\* requests of one visit: the first one and at most maxredir follow-ups, each of which may be repeated once with
-\* credentials after a 401 (lenient reading of "plus one authentication retry": one per request of the chain - a
-\* server that alternates 401 and redirects gets (maxredir + 1) * 2 requests from the code as it is)
-VisitBound == (O.maxredir + 1) * (IF O.auth > 0 THEN 2 ELSE 1)
+\* requests of one visit: the first one, at most maxredir follow-ups, and ONE repetition with credentials after a 401
+VisitBound == O.maxredir + 1 + (IF O.auth > 0 THEN 1 ELSE 0)
 
 ReqViol(e) ==
   IF e.kind = "robots"
